@@ -49,11 +49,32 @@ func c04Gen(rt *rapid.T) c04Case {
 		Small:     true,
 	}
 	db := model.NewDB()
-	c := c04Case{Stmts: gen.History(rt, cfg, db)}
+	c := c04Case{}
+	grown := 0
+	if rapid.IntRange(0, 2).Draw(rt, "grownfirst") > 0 {
+		// phase 1: grow the tables over several leaves and flush; phase 2 then changes
+		// several existing pages between flushes without allocating - the multi-page
+		// flushes outside the listed finding's region
+		grow := cfg
+		grow.MinStmts, grow.MaxStmts, grow.RowCounts = 4, 9, []int{9, 10, 17, 18, 30}
+		c.Stmts = gen.History(rt, grow, db)
+		grown = len(c.Stmts)
+		cfg.NoDDLAfterStart = true
+		cfg.RowCounts = []int{1, 1, 1, 2}
+		cfg.MinStmts, cfg.MaxStmts = 4, 14
+	}
+	c.Stmts = append(c.Stmts, gen.History(rt, cfg, db)...)
 	// many flushes right after small, split-free statements: the region outside
 	// the listed finding must be well populated
 	mode := rapid.SampledFrom([]string{"always", "often", "often", "rare"}).Draw(rt, "flushmode")
+	if grown > 0 {
+		mode = rapid.SampledFrom([]string{"often", "rare", "rare"}).Draw(rt, "flushmode2")
+	}
 	for i := range c.Stmts {
+		if i < grown {
+			c.Stmts[i].FlushAfter = i == grown-1 || rapid.IntRange(0, 3).Draw(rt, "growfl") == 0
+			continue
+		}
 		switch mode {
 		case "always":
 			c.Stmts[i].FlushAfter = true
@@ -392,6 +413,11 @@ func c04Run(c c04Case, st *vlib.Stats) string {
 	var labels []string
 	nontrivial := false
 	composed, excluded, inRegionRun, inRegionFail := 0, 0, 0, 0
+	// in-region states recovered in a child process, per case (statistics only)
+	regionBudget := 2
+	if Cfg.Tier == "thorough" {
+		regionBudget = 6
+	}
 	for fi, f := range recs {
 		if c.OnlyFlush > 0 && fi+1 != c.OnlyFlush {
 			continue
@@ -438,13 +464,8 @@ func c04Run(c c04Case, st *vlib.Stats) string {
 			subs = [][]uint64{c.OnlySubset}
 			nOld = 1
 		}
-		regionBudget := 0
 		if c.InRegion {
 			regionBudget = 1 << 30
-		} else if Cfg.Tier == "thorough" {
-			regionBudget = 2
-		} else {
-			regionBudget = 1
 		}
 		for si, S := range subs {
 			newHdr := si >= nOld
